@@ -69,7 +69,9 @@ Qed.
 Lemma key_inj pref a b : key pref a = key pref b -> a = b.
 Proof.
   destruct a as [[fa va] pa], b as [[fb vb] pb].
-  unfold key, cls, is4, ap_addr, ap_fam, ap_val, ap_port. cbn [fst snd]. intros H. inversion H as [[Hc Hv Hp]]. subst.
+  unfold key, ap_val, ap_port. cbn [fst snd]. intros H.
+  apply pair_equal_spec in H as [H Hp]. apply pair_equal_spec in H as [Hc Hv]. subst.
+  unfold cls, is4, ap_addr, ap_fam, ap_val in Hc. cbn [fst snd] in Hc.
   destruct fa, fb; try reflexivity; exfalso;
     destruct (in_any pref (F4, vb)), (in_any pref (F6, vb)), (is_private4 vb); lia.
 Qed.
@@ -110,7 +112,7 @@ Lemma addr_ltb_lex a b : addr_ltb a b = true <-> (fst (akey a) < fst (akey b) \/
 Proof.
   destruct a as [fa va], b as [fb vb]. unfold addr_ltb, addr_compare, akey. cbn [fst snd].
   destruct fa, fb; try (split; [intros _; lia | reflexivity]); try (split; [discriminate | intros H; exfalso; lia]);
-    (destruct (N.compare_spec va vb); split; intros H; try reflexivity; try discriminate; try lia; exfalso; lia).
+    (destruct (N.compare_spec va vb); split; intros H'; try reflexivity; try discriminate; try lia; exfalso; lia).
 Qed.
 
 Lemma addr_ltb_irrefl a : addr_ltb a a = false.
